@@ -1,6 +1,1499 @@
-//! Property C18: correspondence and oracle (stub: nothing built yet).
-use crate::report::Report;
+//! Property C18 — comment and whitespace rules never touch code.
+//!
+//! Real code: `darklua_core::process` on `Resources::from_memory()` with a json5 `Configuration`
+//! (`append_text_comment`, `remove_comments` with `except`, `remove_spaces`; generator `retain_lines`).
+//! Model: `c18.comment_text`, `c18.append`, `c18.remove_comments`, `c18.remove_spaces` of the Lean
+//! driver (the defs the theorems in `DarkluaModel/C18/Thm.lean` are about).
+//! Oracle: the Lean reference lexer (`c18.lex`, `DarkluaModel/C18/Lex.lean`) on the REAL output:
+//!   O1 code-token stream (kind, bytes) equal to the baseline's (the same file through no rule),
+//!   O2 the appended text sits inside one comment,
+//!   O3 every comment that must survive is still there, in order; nothing else is,
+//!   O4 location `end`: no code token changes line.
+//! The reference lexer itself is cross-checked against the tokenizer darklua parses with
+//! (full_moon, Luau mode) on every generated source darklua accepts; disagreements are reported
+//! under the separate check name `lexer_vs_darklua_parser`.
+use crate::model::{hex, unhex, Model};
+use crate::report::{known_findings, Report, Violation};
+use crate::rng::Rng;
+use darklua_core::{Configuration, Options, Resources};
+use serde_json::{json, Value};
+use std::collections::HashMap;
 
-pub fn run(report: &mut Report, _replay: Option<&str>) {
-    report.notes.push("C18: no harness yet".to_owned());
+// ------------------------------------------------------------------------------------------
+// real code
+
+pub fn run_real(src: &str, config: &str) -> Result<String, String> {
+    let src = src.to_owned();
+    let config = config.to_owned();
+    let r = std::panic::catch_unwind(move || -> Result<String, String> {
+        let resources = Resources::from_memory();
+        resources
+            .write("src/f.lua", &src)
+            .map_err(|e| format!("{:?}", e))?;
+        let configuration: Configuration =
+            json5::from_str(&config).map_err(|e| format!("config: {}", e))?;
+        let options = Options::new("src/f.lua")
+            .with_output("out/f.lua")
+            .with_configuration(configuration);
+        let tree =
+            darklua_core::process(&resources, options).map_err(|e| format!("process: {}", e))?;
+        tree.result().map_err(|errs| {
+            errs.into_iter()
+                .map(|e| e.to_string())
+                .collect::<Vec<_>>()
+                .join("; ")
+        })?;
+        resources.get("out/f.lua").map_err(|e| format!("{:?}", e))
+    });
+    match r {
+        Ok(x) => x,
+        Err(_) => Err("panic".to_owned()),
+    }
+}
+
+#[derive(Clone, Copy, Debug, PartialEq, Eq, Hash)]
+enum Loc {
+    Start,
+    End,
+}
+impl Loc {
+    fn name(self) -> &'static str {
+        match self {
+            Loc::Start => "start",
+            Loc::End => "end",
+        }
+    }
+}
+
+/// a literal `except` pattern: (anchored at start, anchored at end, literal)
+type Lit = (bool, bool, String);
+
+#[derive(Clone, Debug)]
+enum Rule {
+    Spaces,
+    /// `lits` are evaluated by the Lean model, by this harness and (as escaped regexes) by darklua;
+    /// `regexes` only by the regex crate (expected survivors) and darklua.
+    Comments { lits: Vec<Lit>, regexes: Vec<String> },
+}
+
+#[derive(Clone, Debug)]
+enum Case {
+    Append { text: String, loc: Loc, src: String },
+    Remove { src: String, rule: Rule },
+}
+
+fn lit_to_regex(l: &Lit) -> String {
+    format!(
+        "{}{}{}",
+        if l.0 { "^" } else { "" },
+        regex::escape(&l.2),
+        if l.1 { "$" } else { "" }
+    )
+}
+
+impl Case {
+    fn config(&self) -> String {
+        match self {
+            Case::Append { text, loc, .. } => format!(
+                "{{rules:[{{rule:'append_text_comment',text:{},location:'{}'}}]}}",
+                serde_json::to_string(text).unwrap(),
+                loc.name()
+            ),
+            Case::Remove { rule: Rule::Spaces, .. } => "{rules:['remove_spaces']}".to_owned(),
+            Case::Remove { rule: Rule::Comments { lits, regexes }, .. } => {
+                let all: Vec<String> = lits
+                    .iter()
+                    .map(lit_to_regex)
+                    .chain(regexes.iter().cloned())
+                    .collect();
+                if all.is_empty() {
+                    "{rules:['remove_comments']}".to_owned()
+                } else {
+                    format!(
+                        "{{rules:[{{rule:'remove_comments',except:{}}}]}}",
+                        serde_json::to_string(&all).unwrap()
+                    )
+                }
+            }
+        }
+    }
+    fn src(&self) -> &str {
+        match self {
+            Case::Append { src, .. } | Case::Remove { src, .. } => src,
+        }
+    }
+    fn to_json(&self) -> Value {
+        match self {
+            Case::Append { text, loc, src } => {
+                json!({"kind":"append","text":text,"loc":loc.name(),"src":src})
+            }
+            Case::Remove { src, rule: Rule::Spaces } => json!({"kind":"remove_spaces","src":src}),
+            Case::Remove { src, rule: Rule::Comments { lits, regexes } } => json!({
+                "kind":"remove_comments","src":src,
+                "lits": lits.iter().map(|l| json!([l.0, l.1, l.2])).collect::<Vec<_>>(),
+                "regexes": regexes,
+            }),
+        }
+    }
+    fn from_json(v: &Value) -> Option<Case> {
+        let src = v["src"].as_str()?.to_owned();
+        match v["kind"].as_str()? {
+            "append" => Some(Case::Append {
+                text: v["text"].as_str()?.to_owned(),
+                loc: if v["loc"].as_str()? == "end" { Loc::End } else { Loc::Start },
+                src,
+            }),
+            "remove_spaces" => Some(Case::Remove { src, rule: Rule::Spaces }),
+            "remove_comments" => {
+                let lits = v["lits"]
+                    .as_array()
+                    .map(|a| {
+                        a.iter()
+                            .filter_map(|l| {
+                                Some((l[0].as_bool()?, l[1].as_bool()?, l[2].as_str()?.to_owned()))
+                            })
+                            .collect()
+                    })
+                    .unwrap_or_default();
+                let regexes = v["regexes"]
+                    .as_array()
+                    .map(|a| a.iter().filter_map(|s| s.as_str().map(str::to_owned)).collect())
+                    .unwrap_or_default();
+                Some(Case::Remove { src, rule: Rule::Comments { lits, regexes } })
+            }
+            _ => None,
+        }
+    }
+}
+
+const NO_RULES: &str = "{rules:[]}";
+
+// ------------------------------------------------------------------------------------------
+// Lean side
+
+#[derive(Clone, Debug, PartialEq)]
+struct Tok {
+    kind: String,
+    bytes: Vec<u8>,
+    line: usize,
+}
+
+#[derive(Clone, Debug)]
+struct Lexed {
+    ok: bool,
+    toks: Vec<Tok>,
+    coms: Vec<(Vec<u8>, usize)>,
+    /// source order: (is comment, index into `coms` / `toks`)
+    order: Vec<(bool, usize)>,
+}
+
+impl Lexed {
+    fn code(&self) -> Vec<(&str, &[u8])> {
+        self.toks.iter().map(|t| (t.kind.as_str(), t.bytes.as_slice())).collect()
+    }
+    fn lines(&self) -> Vec<usize> {
+        self.toks.iter().map(|t| t.line).collect()
+    }
+    fn comment_bytes(&self) -> Vec<Vec<u8>> {
+        self.coms.iter().map(|c| c.0.clone()).collect()
+    }
+}
+
+fn parse_lex(ans: &str) -> Option<Lexed> {
+    let parts: Vec<&str> = ans.split(' ').collect();
+    if parts.len() != 2 {
+        return None;
+    }
+    let ok = match parts[0] {
+        "ok" => true,
+        "err" => false,
+        _ => return None,
+    };
+    let mut toks = Vec::new();
+    let mut coms = Vec::new();
+    let mut order = Vec::new();
+    if parts[1] != "-" {
+        for t in parts[1].split(',') {
+            let f: Vec<&str> = t.split(':').collect();
+            match f.as_slice() {
+                ["T", kind, bytes, line] => {
+                    order.push((false, toks.len()));
+                    toks.push(Tok { kind: kind.to_string(), bytes: unhex(bytes)?, line: line.parse().ok()? });
+                }
+                ["C", bytes, line] => {
+                    order.push((true, coms.len()));
+                    coms.push((unhex(bytes)?, line.parse().ok()?));
+                }
+                ["E", _] => {}
+                _ => return None,
+            }
+        }
+    }
+    Some(Lexed { ok, toks, coms, order })
+}
+
+#[derive(Clone, Debug)]
+struct FileView {
+    code: Vec<Vec<u8>>,
+    comments: Vec<Vec<u8>>,
+    lines: Vec<Option<usize>>,
+    /// number of code tokens behind the token `mutate_last_token` returns (a final semicolon)
+    after: usize,
+}
+
+fn parse_file(ans: &str) -> Result<FileView, String> {
+    let parts: Vec<&str> = ans.split(' ').collect();
+    if parts.len() != 4 {
+        return Err(ans.to_owned());
+    }
+    let list = |s: &str, prefix: &str| -> Result<Vec<String>, String> {
+        let body = s.strip_prefix(prefix).ok_or_else(|| ans.to_owned())?;
+        Ok(if body == "-" { Vec::new() } else { body.split(',').map(str::to_owned).collect() })
+    };
+    let hexes = |v: Vec<String>| -> Result<Vec<Vec<u8>>, String> {
+        v.iter().map(|h| unhex(h).ok_or_else(|| ans.to_owned())).collect()
+    };
+    Ok(FileView {
+        code: hexes(list(parts[0], "code=")?)?,
+        comments: hexes(list(parts[1], "comments=")?)?,
+        lines: list(parts[2], "lines=")?
+            .iter()
+            .map(|l| if l == "_" { None } else { l.parse().ok() })
+            .collect(),
+        after: parts[3].strip_prefix("after=").and_then(|n| n.parse().ok()).ok_or_else(|| ans.to_owned())?,
+    })
+}
+
+struct Ctx {
+    model: Model,
+    lex_cache: HashMap<String, Lexed>,
+    base_cache: HashMap<String, Result<String, String>>,
+    text_cache: HashMap<String, (Vec<u8>, usize, String)>,
+}
+
+impl Ctx {
+    fn new() -> Ctx {
+        Ctx {
+            model: Model::spawn(),
+            lex_cache: HashMap::new(),
+            base_cache: HashMap::new(),
+            text_cache: HashMap::new(),
+        }
+    }
+    fn lex(&mut self, s: &str) -> Lexed {
+        if let Some(l) = self.lex_cache.get(s) {
+            return l.clone();
+        }
+        let ans = self.model.ask(&format!("c18.lex {}", hex(s.as_bytes())));
+        let l = parse_lex(&ans).unwrap_or_else(|| panic!("bad lex answer: {}", ans));
+        if self.lex_cache.len() < 20000 {
+            self.lex_cache.insert(s.to_owned(), l.clone());
+        }
+        l
+    }
+    fn baseline(&mut self, src: &str) -> Result<String, String> {
+        if let Some(b) = self.base_cache.get(src) {
+            return b.clone();
+        }
+        let b = run_real(src, NO_RULES);
+        if self.base_cache.len() < 20000 {
+            self.base_cache.insert(src.to_owned(), b.clone());
+        }
+        b
+    }
+    /// (commentText, linesCount, h18) from the model
+    fn comment_text(&mut self, text: &str) -> (Vec<u8>, usize, String) {
+        if let Some(t) = self.text_cache.get(text) {
+            return t.clone();
+        }
+        let ans = self.model.ask(&format!("c18.comment_text {}", hex(text.as_bytes())));
+        let parts: Vec<&str> = ans.split(' ').collect();
+        let ct = unhex(parts[0]).unwrap_or_else(|| panic!("bad comment_text answer: {}", ans));
+        let n: usize = parts[1].parse().unwrap();
+        let h = self.model.ask(&format!("c18.h18 {}", hex(text.as_bytes())));
+        let r = (ct, n, h);
+        self.text_cache.insert(text.to_owned(), r.clone());
+        r
+    }
+    fn model_view(&mut self, case: &Case) -> Option<Result<FileView, String>> {
+        let req = match case {
+            Case::Append { text, loc, src } => format!(
+                "c18.append {} {} {}",
+                loc.name(),
+                hex(text.as_bytes()),
+                hex(src.as_bytes())
+            ),
+            Case::Remove { src, rule: Rule::Spaces } => {
+                format!("c18.remove_spaces {}", hex(src.as_bytes()))
+            }
+            Case::Remove { src, rule: Rule::Comments { lits, regexes } } => {
+                if !regexes.is_empty() {
+                    return None;
+                }
+                let mut r = format!("c18.remove_comments {}", hex(src.as_bytes()));
+                for l in lits {
+                    r.push_str(&format!(
+                        " {}{}{}",
+                        if l.0 { 1 } else { 0 },
+                        if l.1 { 1 } else { 0 },
+                        hex(l.2.as_bytes())
+                    ));
+                }
+                r
+            }
+        };
+        let ans = self.model.ask(&req);
+        Some(parse_file(&ans))
+    }
+}
+
+// ------------------------------------------------------------------------------------------
+// small helpers
+
+fn contains(hay: &[u8], needle: &[u8]) -> bool {
+    needle.is_empty() || hay.windows(needle.len()).any(|w| w == needle)
+}
+
+fn find_from(hay: &[u8], needle: &[u8], from: usize) -> Option<usize> {
+    if needle.is_empty() {
+        return Some(from);
+    }
+    if from > hay.len() {
+        return None;
+    }
+    hay[from..].windows(needle.len()).position(|w| w == needle).map(|p| from + p)
+}
+
+/// the harness's own reading of a literal pattern (third implementation, next to Lean and regex)
+fn lit_matches(l: &Lit, s: &[u8]) -> bool {
+    let p = l.2.as_bytes();
+    match (l.0, l.1) {
+        (true, true) => s == p,
+        (true, false) => s.starts_with(p),
+        (false, true) => s.ends_with(p),
+        (false, false) => contains(s, p),
+    }
+}
+
+fn show(b: &[u8]) -> String {
+    String::from_utf8_lossy(b).into_owned()
+}
+
+fn has_lone_cr(s: &str) -> bool {
+    let b = s.as_bytes();
+    (0..b.len()).any(|i| b[i] == b'\r' && b.get(i + 1) != Some(&b'\n'))
+}
+
+// ------------------------------------------------------------------------------------------
+// the tokenizer darklua parses with
+
+struct FmView {
+    toks: Vec<(String, usize)>,
+    coms: Vec<(String, usize)>,
+    /// (byte offset, is comment, text, line): `Node::tokens` is in field order, not source order
+    raw: Vec<(usize, bool, String, usize)>,
+}
+
+fn fm_tokens(src: &str) -> Option<FmView> {
+    use full_moon::node::Node;
+    use full_moon::tokenizer::{TokenReference, TokenType};
+    let src2 = src.to_owned();
+    std::panic::catch_unwind(move || {
+        let ast = full_moon::parse_fallible(&src2, full_moon::LuaVersion::luau())
+            .into_result()
+            .ok()?;
+        let mut v = FmView { toks: Vec::new(), coms: Vec::new(), raw: Vec::new() };
+        let push = |t: &TokenReference, v: &mut FmView| {
+            for tr in t.leading_trivia() {
+                match tr.token_type() {
+                    TokenType::SingleLineComment { .. } | TokenType::MultiLineComment { .. } => {
+                        v.raw.push((tr.start_position().bytes(), true, tr.to_string(), tr.start_position().line()))
+                    }
+                    _ => {}
+                }
+            }
+            if !matches!(t.token().token_type(), TokenType::Eof) {
+                v.raw.push((t.token().start_position().bytes(), false, t.token().to_string(), t.token().start_position().line()));
+            }
+            for tr in t.trailing_trivia() {
+                match tr.token_type() {
+                    TokenType::SingleLineComment { .. } | TokenType::MultiLineComment { .. } => {
+                        v.raw.push((tr.start_position().bytes(), true, tr.to_string(), tr.start_position().line()))
+                    }
+                    _ => {}
+                }
+            }
+        };
+        for t in ast.nodes().tokens() {
+            push(t, &mut v);
+        }
+        push(ast.eof(), &mut v);
+        v.raw.sort_by_key(|r| r.0);
+        for (_, is_comment, text, line) in v.raw.clone() {
+            if is_comment {
+                v.coms.push((text, line));
+            } else {
+                v.toks.push((text, line));
+            }
+        }
+        Some(v)
+    })
+    .ok()
+    .flatten()
+}
+
+// ------------------------------------------------------------------------------------------
+// judging one case
+
+#[derive(Default)]
+struct Outcome {
+    hists: Vec<(&'static str, String)>,
+    key: Option<String>,
+    violations: Vec<Violation>,
+    sample: Option<Value>,
+    counts: Vec<(&'static str, u64)>,
+    /// names of the oracle checks that failed on the real output (whatever the region)
+    oracle_fails: Vec<String>,
+    skipped: bool,
+}
+
+impl Outcome {
+    fn hist(&mut self, name: &'static str, bucket: impl Into<String>) {
+        self.hists.push((name, bucket.into()));
+    }
+    fn count(&mut self, name: &'static str) {
+        self.counts.push((name, 1));
+    }
+    fn violate(&mut self, kind: &str, check: &str, what: String, case: &Case, found: bool) {
+        self.violations.push(Violation {
+            kind: kind.to_owned(),
+            check: check.to_owned(),
+            what,
+            input: case.to_json(),
+            failing_input_found: found,
+        });
+    }
+}
+
+/// The oracle on the real output. Returns the failed checks (names + explanation).
+/// `expected_comments`: the comment list the configuration selects, computed without the Lean model
+/// (None for append cases, which use the containment form O2/O3).
+fn oracle(
+    ctx: &mut Ctx,
+    case: &Case,
+    base: &str,
+    out: &str,
+    expected_comments: Option<&Vec<Vec<u8>>>,
+) -> Vec<(String, String)> {
+    let mut fails = Vec::new();
+    let lb = ctx.lex(base);
+    let lo = ctx.lex(out);
+    if !lo.ok {
+        fails.push(("O1".to_owned(), "the output does not lex (unfinished comment/string)".to_owned()));
+    }
+    if lo.code() != lb.code() {
+        let i = lo.code().iter().zip(lb.code().iter()).take_while(|(a, b)| a == b).count();
+        fails.push((
+            "O1".to_owned(),
+            format!(
+                "code tokens differ at index {}: expected {:?}, got {:?} ({} vs {} tokens)",
+                i,
+                lb.toks.get(i).map(|t| show(&t.bytes)),
+                lo.toks.get(i).map(|t| show(&t.bytes)),
+                lb.toks.len(),
+                lo.toks.len()
+            ),
+        ));
+    }
+    match case {
+        Case::Append { text, loc, .. } => {
+            if !text.is_empty() {
+                if !lo.coms.iter().any(|c| contains(&c.0, text.as_bytes())) {
+                    fails.push(("O2".to_owned(), "the text is not inside one comment of the output".to_owned()));
+                }
+                // every original comment still inside the comments of the output, in order
+                let cat: Vec<u8> = lo.coms.iter().flat_map(|c| c.0.clone()).collect();
+                let mut pos = 0usize;
+                let mut all = true;
+                // the appended comment may come before or after; search without it by trying both orders
+                for c in lb.coms.iter() {
+                    match find_from(&cat, &c.0, pos) {
+                        Some(p) => pos = p + c.0.len(),
+                        None => {
+                            // retry from the start once (the appended comment can precede)
+                            all = false;
+                            break;
+                        }
+                    }
+                }
+                if !all {
+                    fails.push(("O3".to_owned(), "an original comment is no longer (wholly) a comment".to_owned()));
+                }
+                if *loc == Loc::End && lo.lines() != lb.lines() && lo.code() == lb.code() {
+                    fails.push((
+                        "O4".to_owned(),
+                        format!("location end: token lines {:?} became {:?}", lb.lines(), lo.lines()),
+                    ));
+                }
+            } else if out != base {
+                fails.push(("O1".to_owned(), "empty text but the output differs from the baseline".to_owned()));
+            }
+        }
+        Case::Remove { .. } => {
+            if let Some(exp) = expected_comments {
+                // remove_spaces may glue a line comment to the line comment before it (the text stays
+                // inside a comment): compared as one byte string there, as a list otherwise
+                let glue_ok = matches!(case, Case::Remove { rule: Rule::Spaces, .. })
+                    && lo.comment_bytes().concat() == exp.concat()
+                    && lo.coms.len() <= exp.len();
+                if &lo.comment_bytes() != exp && !glue_ok {
+                    fails.push((
+                        "O3".to_owned(),
+                        format!(
+                            "comments of the output {:?}, the configuration selects {:?}",
+                            lo.comment_bytes().iter().map(|c| show(c)).collect::<Vec<_>>(),
+                            exp.iter().map(|c| show(c)).collect::<Vec<_>>()
+                        ),
+                    ));
+                }
+            }
+        }
+    }
+    fails
+}
+
+/// Mirror of `is_single_line_comment` in src/generator/token_based.rs, to delimit finding F27: a line
+/// comment `--[` + up to three bytes + `[` (or `--[` `=`* … `[`) is taken for a long comment, so the
+/// generator does not break the line before what follows it.
+fn generator_takes_for_long(comment: &[u8]) -> bool {
+    let s = String::from_utf8_lossy(comment);
+    if !s.starts_with("--[") {
+        return false;
+    }
+    match s.chars().skip(3).enumerate().find(|(_, c)| *c == '[') {
+        Some((i, _)) => s.get(3..i).map(|sub| sub.chars().all(|c| c == '=')).unwrap_or(true),
+        None => false,
+    }
+}
+
+fn is_long_comment(comment: &[u8]) -> bool {
+    // `--[` `=`* `[`
+    if !comment.starts_with(b"--[") {
+        return false;
+    }
+    let rest = &comment[3..];
+    let k = rest.iter().take_while(|b| **b == b'=').count();
+    rest.get(k) == Some(&b'[')
+}
+
+/// a line comment the generator misclassifies (F27)
+fn f27_trigger(l: &Lexed) -> bool {
+    l.coms.iter().any(|c| !is_long_comment(&c.0) && generator_takes_for_long(&c.0))
+}
+
+/// F29: a `-` operator directly followed (whitespace aside) by a comment: without the whitespace the
+/// generator writes `-` `--…` = `---…`, one comment.
+fn f29_trigger(l: &Lexed) -> bool {
+    l.order.windows(2).any(|w| !w[0].0 && w[1].0 && l.toks[w[0].1].bytes == b"-")
+}
+
+/// F30: a comment directly followed by a `...` token (a variadic type pack is written without
+/// breaking the line after a line comment)
+fn f30_trigger(l: &Lexed) -> bool {
+    l.order.windows(2).any(|w| w[0].0 && !w[1].0 && l.toks[w[1].1].bytes == b"..." && !is_long_comment(&l.coms[w[0].1].0))
+}
+
+/// comments the configuration keeps, from the reference lexer's comment list of the baseline
+fn expected_survivors(rule: &Rule, base_comments: &[Vec<u8>]) -> Vec<Vec<u8>> {
+    match rule {
+        Rule::Spaces => base_comments.to_vec(),
+        Rule::Comments { lits, regexes } => {
+            let res: Vec<regex::Regex> =
+                regexes.iter().filter_map(|r| regex::Regex::new(r).ok()).collect();
+            base_comments
+                .iter()
+                .filter(|c| {
+                    lits.iter().any(|l| lit_matches(l, c))
+                        || std::str::from_utf8(c).map(|s| res.iter().any(|r| r.is_match(s))).unwrap_or(false)
+                })
+                .cloned()
+                .collect()
+        }
+    }
+}
+
+fn judge(ctx: &mut Ctx, case: &Case, witness_mode: bool) -> Outcome {
+    let mut o = Outcome::default();
+    let src = case.src().to_owned();
+    let base = match ctx.baseline(&src) {
+        Ok(b) => b,
+        Err(e) => {
+            o.skipped = true;
+            o.hist("skipped", if e.contains("parse") { "darklua rejects the source" } else { "baseline error" });
+            return o;
+        }
+    };
+    let out = match run_real(&src, &case.config()) {
+        Ok(x) => x,
+        Err(e) => {
+            o.oracle_fails.push("run".to_owned());
+            o.violate("oracle", "rule_runs", format!("the rule fails on a file darklua accepts: {}", e), case, true);
+            return o;
+        }
+    };
+    if has_lone_cr(&src) && !witness_mode {
+        // F31: darklua's tokenizer does not end a line comment at a CR that is not followed by LF
+        o.hist("skipped", "source with a lone CR (F31)");
+        o.skipped = true;
+        return o;
+    }
+    let lsrc = ctx.lex(&src);
+    let lbase = ctx.lex(&base);
+    // the generator alone (no rule) reproduces tokens, comments and lines: precondition of the model comparisons
+    let faithful = lsrc.code() == lbase.code() && lsrc.comment_bytes() == lbase.comment_bytes() && lsrc.lines() == lbase.lines();
+    if lsrc.code() != lbase.code() || lsrc.comment_bytes() != lbase.comment_bytes() {
+        // not C18's business (no rule ran): the generator alone changed tokens or comments
+        o.hist("baseline_vs_source", "differs (generator, not a C18 rule)");
+    } else {
+        o.hist("baseline_vs_source", "same tokens and comments");
+    }
+    match case {
+        Case::Append { text, loc, src } => {
+            let (ct, nlines, h18) = ctx.comment_text(text);
+            let inside = h18 == "true" || h18 == "empty";
+            o.hist("append_region", format!("{}:{}", loc.name(), match h18.as_str() {
+                "empty" => "empty text",
+                "true" => if text.contains('\n') { "multi-line" } else { "single-line inside H18" },
+                _ => "outside H18 (F20/F21)",
+            }));
+            // --- correspondence: the comment bytes
+            let expected: Option<Vec<u8>> = if ct.is_empty() {
+                Some(base.clone().into_bytes())
+            } else if src.is_empty() {
+                Some(match loc {
+                    Loc::Start => [ct.clone(), b"\n".to_vec()].concat(),
+                    Loc::End => ct.clone(),
+                })
+            } else if *loc == Loc::Start && (witness_mode || lsrc.toks.first().map(|t| t.bytes != b"@").unwrap_or(true)) {
+                // (a leading attribute is not the token `mutate_first_token` returns: F28)
+                Some([ct.clone(), b"\n".to_vec(), base.clone().into_bytes()].concat())
+            } else {
+                None
+            };
+            let mut corr_fail: Option<(String, String)> = None;
+            if let Some(exp) = &expected {
+                if out.as_bytes() != exp.as_slice() {
+                    corr_fail = Some((
+                        "comment_text".to_owned(),
+                        format!("real output {:?}, model predicts {:?}", out, show(exp)),
+                    ));
+                }
+            } else if !contains(out.as_bytes(), &ct) {
+                corr_fail = Some((
+                    "comment_text".to_owned(),
+                    format!("real output {:?} does not contain the model's comment {:?}", out, show(&ct)),
+                ));
+            }
+            // --- oracle
+            let fails = oracle(ctx, case, &base, &out, None);
+            o.oracle_fails = fails.iter().map(|f| f.0.clone()).collect();
+            let lo = ctx.lex(&out);
+            for (name, what) in &fails {
+                if name == "O4" {
+                    o.count("F25_end_shifts_lines");
+                    continue;
+                }
+                if !inside && !witness_mode {
+                    o.count("oracle_fails_outside_H18");
+                    continue;
+                }
+                // F27 at the end of a file: the last comment of the file, or the appended comment itself, is a
+                // line comment the generator takes for a long one; what is written next is glued to it
+                if *loc == Loc::End
+                    && (f27_trigger(&lbase) || (!is_long_comment(&ct) && generator_takes_for_long(&ct)))
+                {
+                    o.count("oracle_fails_in_F27_region");
+                    continue;
+                }
+                if witness_mode {
+                    continue;
+                }
+                o.violate("oracle", &format!("append_{}", name), what.clone(), case, true);
+            }
+            // --- correspondence: token model (code, comments up to merging, lines)
+            let attribute_first = *loc == Loc::Start && lsrc.toks.first().map(|t| t.bytes == b"@").unwrap_or(false);
+            if attribute_first {
+                o.hist("append_first_token", "attribute (comment lands behind it: F28)");
+            }
+            if inside && !attribute_first && fails.iter().all(|f| f.0 == "O4") && corr_fail.is_none() {
+                match ctx.model_view(case) {
+                    Some(Ok(view)) => {
+                        let real_code: Vec<Vec<u8>> = lo.toks.iter().map(|t| t.bytes.clone()).collect();
+                        // the model's code tokens are the lexer's tokens of the *source*
+                        let src_code: Vec<Vec<u8>> = lsrc.toks.iter().map(|t| t.bytes.clone()).collect();
+                        if view.code != src_code {
+                            corr_fail = Some(("model_code".to_owned(), "model changes the code tokens".to_owned()));
+                        } else if lsrc.code() == lbase.code() && real_code != view.code {
+                            corr_fail = Some(("model_code".to_owned(), "code tokens of the real output differ from the model's".to_owned()));
+                        }
+                        let cat_real: Vec<u8> = lo.coms.iter().flat_map(|c| c.0.clone()).collect();
+                        let cat_model: Vec<u8> = view.comments.iter().flatten().cloned().collect();
+                        // where exactly the comment lands among the other comments depends on which token
+                        // the AST calls first/last (attributes, union types, …): compared on the fixed files only
+                        let fixed_file = append_files().contains(&src.as_str());
+                        if faithful && fixed_file {
+                            if cat_real != cat_model {
+                                corr_fail = Some((
+                                    "model_comments".to_owned(),
+                                    format!(
+                                        "comments of the real output {:?}, model {:?}",
+                                        lo.comment_bytes().iter().map(|c| show(c)).collect::<Vec<_>>(),
+                                        view.comments.iter().map(|c| show(c)).collect::<Vec<_>>()
+                                    ),
+                                ));
+                            } else if lo.coms.len() != view.comments.len() {
+                                o.hist("append_comment_merge", "merged with a neighbouring line comment");
+                            } else {
+                                o.hist("append_comment_merge", "separate");
+                            }
+                        }
+                        if !text.is_empty() && faithful && real_code == view.code && (fixed_file || *loc == Loc::Start) {
+                            // a token written after the attached comment (the final semicolon) is pushed
+                            // down by the generator when the comment is a line comment: not modelled
+                            let n = view.lines.len().saturating_sub(if *loc == Loc::End { view.after } else { 0 });
+                            let real_lines: Vec<Option<usize>> = lo.lines().into_iter().map(Some).collect();
+                            if real_lines[..n.min(real_lines.len())] != view.lines[..n] {
+                                corr_fail = Some((
+                                    "model_lines".to_owned(),
+                                    format!("token lines of the real output {:?}, model (shift {}) {:?}", real_lines, nlines, view.lines),
+                                ));
+                            }
+                        }
+                    }
+                    Some(Err(e)) => {
+                        o.hist("model_view", format!("unavailable: {}", e));
+                    }
+                    None => {}
+                }
+            }
+            if let Some((check, what)) = corr_fail {
+                o.oracle_fails.push(format!("corr:{}", check));
+                if !witness_mode {
+                    o.violate("correspondence", &check, what, case, false);
+                }
+            }
+            if !text.is_empty() {
+                o.key = Some(format!("a|{}|{}|{}", text, loc.name(), src));
+            }
+        }
+        Case::Remove { rule, .. } => {
+            let expected = expected_survivors(rule, &lbase.comment_bytes());
+            let fails = oracle(ctx, case, &base, &out, Some(&expected));
+            o.oracle_fails = fails.iter().map(|f| f.0.clone()).collect();
+            // F26: in a CRLF file darklua matches `except` against the comment text *with* the CR
+            let with_cr: Vec<Vec<u8>> = lbase.comment_bytes().iter().map(|c| [c.as_slice(), b"\r"].concat()).collect();
+            let crlf_sensitive = src.contains("\r\n")
+                && expected_survivors(rule, &with_cr).iter().map(|c| c[..c.len() - 1].to_vec()).collect::<Vec<_>>() != expected;
+            if crlf_sensitive {
+                o.hist("remove_region", "CRLF file and a pattern that sees the CR (F26)");
+            } else {
+                o.hist("remove_region", "inside");
+            }
+            let spaces = matches!(rule, Rule::Spaces);
+            let f27 = spaces && (f27_trigger(&lbase) || f29_trigger(&lbase) || f30_trigger(&lbase));
+            if spaces {
+                o.hist(
+                    "remove_spaces_region",
+                    if f27_trigger(&lbase) {
+                        "a line comment the generator takes for a long one (F27)"
+                    } else if f29_trigger(&lbase) {
+                        "`-` directly before a comment (F29)"
+                    } else if f30_trigger(&lbase) {
+                        "line comment directly before `...` (F30)"
+                    } else {
+                        "inside"
+                    },
+                );
+            }
+            if !witness_mode {
+                for (name, what) in &fails {
+                    if f27 {
+                        o.count("oracle_fails_in_F27_F29_F30_region");
+                        continue;
+                    }
+                    if crlf_sensitive && name == "O3" {
+                        o.count("oracle_fails_in_F26_region");
+                        continue;
+                    }
+                    o.violate("oracle", &format!("remove_{}", name), what.clone(), case, true);
+                }
+            }
+            let lo = ctx.lex(&out);
+            o.hist(
+                "remove_lines",
+                if lo.lines() == lbase.lines() { "token lines kept" } else { "token lines changed (C04's concern)" },
+            );
+            let kept = expected.len();
+            let total = lbase.coms.len();
+            o.hist(
+                "remove_selection",
+                match rule {
+                    Rule::Spaces => "remove_spaces".to_owned(),
+                    Rule::Comments { lits, regexes } if lits.is_empty() && regexes.is_empty() => "remove_comments: no except".to_owned(),
+                    Rule::Comments { .. } => format!(
+                        "remove_comments: except keeps {}",
+                        if kept == 0 { "none" } else if kept == total { "all" } else { "some" }
+                    ),
+                },
+            );
+            if fails.is_empty() {
+                if let Some(view) = ctx.model_view(case) {
+                    match view {
+                        Ok(view) => {
+                            let real_code: Vec<Vec<u8>> = lo.toks.iter().map(|t| t.bytes.clone()).collect();
+                            let comments_differ = if matches!(rule, Rule::Spaces) {
+                                lo.comment_bytes().concat() != view.comments.concat()
+                            } else {
+                                lo.comment_bytes() != view.comments
+                            };
+                            if faithful && (real_code != view.code || comments_differ)
+                            {
+                                o.oracle_fails.push("corr:model_remove".to_owned());
+                                if !witness_mode {
+                                    o.violate(
+                                        "correspondence",
+                                        "model_remove",
+                                        format!(
+                                            "real comments {:?}, model comments {:?}",
+                                            lo.comment_bytes().iter().map(|c| show(c)).collect::<Vec<_>>(),
+                                            view.comments.iter().map(|c| show(c)).collect::<Vec<_>>()
+                                        ),
+                                        case,
+                                        false,
+                                    );
+                                }
+                            }
+                        }
+                        Err(e) => o.hist("model_view", format!("unavailable: {}", e)),
+                    }
+                }
+            }
+            if total > 0 {
+                o.key = Some(format!("r|{}|{}", case.config(), src));
+            }
+        }
+    }
+    o
+}
+
+/// reference lexer vs the tokenizer darklua parses with, on a source darklua accepts
+fn cross_check_lexer(ctx: &mut Ctx, src: &str, o: &mut Outcome) {
+    let fm = match fm_tokens(src) {
+        Some(f) => f,
+        None => {
+            o.hist("lexer_cross_check", "full_moon rejects");
+            return;
+        }
+    };
+    let l = ctx.lex(src);
+    let lt: Vec<(String, usize)> = l.toks.iter().map(|t| (show(&t.bytes), t.line)).collect();
+    let lc: Vec<(String, usize)> = l.coms.iter().map(|c| (show(&c.0), c.1)).collect();
+    // full_moon keeps the CR of a CRLF line end inside a line comment
+    let fc: Vec<(String, usize)> = fm
+        .coms
+        .iter()
+        .map(|(s, n)| (s.strip_suffix('\r').unwrap_or(s).to_owned(), *n))
+        .collect();
+    if fc != fm.coms {
+        o.hist("lexer_cross_check_note", "full_moon line comment carries the CR of CRLF");
+    }
+    let case = Case::Remove { src: src.to_owned(), rule: Rule::Spaces };
+    if !l.ok || lt != fm.toks {
+        let i = lt.iter().zip(fm.toks.iter()).take_while(|(a, b)| a == b).count();
+        o.hist("lexer_cross_check", "DISAGREE tokens");
+        o.violate(
+            "correspondence",
+            "lexer_vs_darklua_parser",
+            format!(
+                "reference lexer (ok={}) and darklua's tokenizer differ at token {}: {:?} vs {:?}",
+                l.ok,
+                i,
+                lt.get(i),
+                fm.toks.get(i)
+            ),
+            &case,
+            false,
+        );
+    } else if lc != fc {
+        o.hist("lexer_cross_check", "DISAGREE comments");
+        o.violate(
+            "correspondence",
+            "lexer_vs_darklua_parser",
+            format!("comments differ: {:?} vs {:?}", lc, fc),
+            &case,
+            false,
+        );
+    } else {
+        o.hist("lexer_cross_check", "agree (token texts, comment texts, lines)");
+    }
+}
+
+// ------------------------------------------------------------------------------------------
+// generators
+
+const ALPHABET: [char; 8] = ['[', ']', '=', '-', 'a', '\n', '\r', ' '];
+
+fn all_texts(max_len: usize) -> Vec<String> {
+    let mut out = vec![String::new()];
+    let mut layer = vec![String::new()];
+    for _ in 0..max_len {
+        let mut next = Vec::with_capacity(layer.len() * ALPHABET.len());
+        for s in &layer {
+            for c in ALPHABET {
+                let mut t = s.clone();
+                t.push(c);
+                next.push(t);
+            }
+        }
+        out.extend(next.iter().cloned());
+        layer = next;
+    }
+    out
+}
+
+/// the property's list
+fn special_texts() -> Vec<String> {
+    [
+        "", "hello", "]]", "a]]b", "]=]", "x]=]y", "[[", "[[hello", "[=[", "[=[hello", "[==[ x ]==]", "[", "[=",
+        "[=x[", "[ [", "x]", "]", "]=", "a\nb", "a\r\nb", "\n", "a\n", "\nb", "]]\n", "\n]]", "]\n]", "]=\n=]",
+        "a\n]]\n]=]\n]==]", "]]\n]=]", "]\n", "a\rb", "\r", "a\r", "hello\rprint(1)", "--", "-- x", "--[[", "--[[ x ]]",
+        "--\n--", "]]--", "!native", "!strict", "é ü 日本", "日本\n]]", " ", "\t", "[[\n", "[[\n]]", "]]]]\n]=]]=]",
+        "[==========[", "]==========]", "a]==]\n]]\n]=]", "x\n\n\ny", "print(1)", "]] print(2) --[[",
+        "]]\nprint(2)\n--[[", "\\", "\\\n", "'", "\"", "`{", "\0",
+    ]
+    .iter()
+    .map(|s| s.to_string())
+    .collect()
+}
+
+/// files for the append cases: empty / with code / ending with a line comment / lacking a final newline …
+fn append_files() -> Vec<&'static str> {
+    vec![
+        "",
+        "print(1)\n",
+        "print(1)",
+        "print(1) -- c",
+        "print(1) -- c\n",
+        "print(1)\n-- c",
+        "print(1)\n-- c\n",
+        "-- only",
+        "--[[ only ]]",
+        "return 1 --[[ c ]]",
+        "local a = 1 -- x\nprint(a) --[=[ y\n ]=] print(2)\n\n\n",
+        "-- first\nlocal s = 'str' .. [[long\nstring]]\nreturn s",
+        "do end --",
+        "f ( ) ;",
+        "return 1 , 2",
+    ]
+}
+
+const TEMPLATES: [&str; 27] = [
+    "local a , b = 1 , 0x1F",
+    "local function f ( x , ... ) return x + 1 , ... end",
+    "function M . n : m ( a ) local t = { 1 , 2 ; x = 3 , [ \"k\" ] = 4 } return t [ 1 ] . x end",
+    "if a == b then f ( ) elseif a ~= b then g ( ) else h ( ) end",
+    "while not a do a = a or b and c break end",
+    "repeat x = x .. \"s\" until x == nil",
+    "for i = 1 , 10 , 2 do continue end",
+    "for k , v in pairs ( t ) do print ( k , v ) end",
+    "do local s = 'q·\"·w' ; local l = [==[·long·]]·string·]==] end",
+    "a . b [ c ] : d ( e ) ( f ) \"str\" { g }",
+    "x += 1 y //= 2 z ..= \"w\" w -= 1 v *= 2 u /= 2 t %= 2 s ^= 2",
+    "type T < U > = { f : number , [ string ] : U } | ( a : number , ... string ) -> ( ) | nil",
+    "export type P = typeof ( x ) & Q type O = string ? | nil",
+    "local v : number = ( w :: any ) :: number",
+    "local r = if c then 1 elseif d then 2 else 3",
+    "local s = `a{ x }b{ y + 1 }c` .. `plain` .. `{ z }`",
+    "local n = 1e10 + .5 + 3. + 0b1010 + 1_000 + 0xFF_FF - 1e-3 + 0XAB + 1E+2",
+    "local f = function < T > ( a : T , ... : T ) : ( T , ... T ) return a , ... end",
+    "t = { [ 1 ] = 1 , a = 2 , 3 , } f { } f ''",
+    "local e = a < b , a <= b , a > b , a >= b , a % b , a / b , a // b , a * b , a - b , - a , # t , not y , ( z ) , a ^ b",
+    "local function g ( ... : number ) : ... string return ... end",
+    "local str = \"esc·\\\"·\\\\·\\n·\\z···x·\\065·\\x41·\\u{48}\" .. 'a\\'b'",
+    "t . x . y = nil ; ( f ) ( ) ; f ( ) : g ( ) ;",
+    "local aa , bb : string , cc : any = f ( ) , \"x\" , nil",
+    "@native function nf ( ) end",
+    "type function TF ( t ) return t end",
+    "local tbl : { number } = { } local cb : ( ) -> ( ) = nil local opt : string ? = nil",
+];
+
+const LAST_TEMPLATES: [&str; 5] = [
+    "return - x ^ 2 , # t , not y , ( z ) , function ( ... ) end , ...",
+    "return",
+    "return f ( a ) ;",
+    "return { a = 1 }",
+    "return a and b or c",
+];
+
+const LINE_BODIES: [&str; 22] = [
+    "", " x", "!strict", " TODO: fix", "- dashes", "[abc[ x", "[=x", "[", " keep me", " 日本", "]]", "]=]", " this one",
+    "[==", "--", " --[[ not long ]]", " y ]]", "x", " KEEP", " 123", "!native", " end",
+];
+
+const LONG_COMMENTS: [&str; 12] = [
+    "--[[ y ]]",
+    "--[[\nmulti\n]]",
+    "--[=[ a ]] b ]=]",
+    "--[==[ x ]==]",
+    "--[[]]",
+    "--[[ -- nested ]]",
+    "--[[ keep me ]]",
+    "--[=[\n]]\n]=]",
+    "--[[ this\nspans ]]",
+    "--[[!strict]]",
+    "--[===[ ]==] ]=] ]] ]===]",
+    "--[[ x]]",
+];
+
+const WS: [&str; 7] = [" ", "\n", "  ", "\t", "\n\n", " \n ", "\n  "];
+
+/// one gap between two tokens: whitespace, then zero or more comments each followed by whitespace
+fn gap(rng: &mut Rng, force_comment: Option<usize>, nl: &str, prev: &str) -> String {
+    let mut g = String::new();
+    // tight: a long comment glued to the previous token (never after `-`, that would be a `---` line comment)
+    if !prev.is_empty() && !prev.ends_with('-') && rng.chance(1, 8) {
+        g.push_str(&rng.pick(&LONG_COMMENTS).replace('\n', nl));
+        if rng.chance(1, 2) {
+            return g;
+        }
+    }
+    g.push_str(&rng.pick(&WS).replace('\n', nl));
+    let n = match force_comment {
+        Some(_) => 1 + rng.below(2),
+        None => {
+            if rng.chance(1, 4) {
+                1 + rng.below(2)
+            } else {
+                0
+            }
+        }
+    };
+    for i in 0..n {
+        let long = match force_comment {
+            Some(k) => (k + i) % 2 == 0,
+            None => rng.chance(1, 2),
+        };
+        if long {
+            g.push_str(&rng.pick(&LONG_COMMENTS).replace('\n', nl));
+            g.push_str(&rng.pick(&WS).replace('\n', nl));
+        } else {
+            g.push_str("--");
+            g.push_str(*rng.pick(&LINE_BODIES));
+            g.push_str(nl);
+            if rng.chance(1, 3) {
+                g.push_str(&rng.pick(&WS).replace('\n', nl));
+            }
+        }
+    }
+    g
+}
+
+/// a program with trivia in the gaps; `every`: a comment in every gap (every trivia position)
+fn gen_source(rng: &mut Rng, every: bool, nl: &str, only: Option<usize>) -> String {
+    let mut toks: Vec<String> = Vec::new();
+    let n = if only.is_some() { 1 } else { 1 + rng.below(3) };
+    for _ in 0..n {
+        let t = match only {
+            Some(i) if i < TEMPLATES.len() => TEMPLATES[i],
+            Some(_) => "",
+            None => *rng.pick(&TEMPLATES),
+        };
+        toks.extend(t.split(' ').filter(|x| !x.is_empty()).map(|x| x.replace('·', " ")));
+    }
+    let last = match only {
+        Some(i) if i >= TEMPLATES.len() => Some(LAST_TEMPLATES[i - TEMPLATES.len()]),
+        Some(_) => None,
+        None => {
+            if rng.chance(1, 3) {
+                Some(*rng.pick(&LAST_TEMPLATES))
+            } else {
+                None
+            }
+        }
+    };
+    if let Some(t) = last {
+        toks.extend(t.split(' ').map(|x| x.replace('·', " ")));
+    }
+    let mut s = String::new();
+    if every || rng.chance(1, 2) {
+        let g = gap(rng, if every { Some(0) } else { None }, nl, "");
+        s.push_str(g.trim_start_matches(' '));
+    }
+    for (i, t) in toks.iter().enumerate() {
+        s.push_str(t);
+        let is_last = i + 1 == toks.len();
+        if !is_last || every || rng.chance(1, 2) {
+            s.push_str(&gap(rng, if every { Some(i) } else { None }, nl, t));
+        }
+    }
+    if rng.chance(1, 3) {
+        // end without a final newline, possibly right after a line comment
+        while s.ends_with('\n') || s.ends_with(' ') || s.ends_with('\r') || s.ends_with('\t') {
+            s.pop();
+        }
+    }
+    s
+}
+
+fn lit_pool() -> Vec<Lit> {
+    vec![
+        (false, false, "x".into()),
+        (false, false, "keep".into()),
+        (false, false, "KEEP".into()),
+        (true, false, "--!".into()),
+        (false, false, "TODO".into()),
+        (true, false, "--[[".into()),
+        (true, false, "--[=".into()),
+        (false, false, "]]".into()),
+        (false, true, "]]".into()),
+        (false, true, "x".into()),
+        (true, true, "--".into()),
+        (true, true, "--[[]]".into()),
+        (false, false, "日本".into()),
+        (false, false, "\n".into()),
+        (false, false, "this".into()),
+        (true, false, "-- ".into()),
+        (false, false, "--".into()),
+        (false, false, "zzz-never".into()),
+        (false, false, ".".into()),
+        (false, false, "[".into()),
+    ]
+}
+
+const REGEX_POOL: [&str; 12] = [
+    "this.*", "^--!\\w+", "[A-Z]{2,}", "(?i)keep", "\\d", "^--\\[=*\\[", ".", "^$", "^--\\s", "(?s)multi.*\\]\\]$",
+    "[\\[\\]]", "\\bx\\b",
+];
+
+fn gen_rule(rng: &mut Rng, crlf: bool) -> Rule {
+    match rng.below(8) {
+        0 => Rule::Spaces,
+        1 => Rule::Comments { lits: vec![], regexes: vec![] },
+        2 | 3 | 4 => {
+            let pool: Vec<Lit> = lit_pool().into_iter().filter(|l| !(crlf && l.1)).collect();
+            let n = 1 + rng.below(3);
+            Rule::Comments { lits: (0..n).map(|_| rng.pick(&pool).clone()).collect(), regexes: vec![] }
+        }
+        _ => {
+            let pool: Vec<&str> = REGEX_POOL.iter().cloned().filter(|r| !(crlf && r.ends_with('$'))).collect();
+            let n = 1 + rng.below(2);
+            Rule::Comments { lits: vec![], regexes: (0..n).map(|_| rng.pick(&pool).to_string()).collect() }
+        }
+    }
+}
+
+// ------------------------------------------------------------------------------------------
+// driving
+
+fn run_parallel(cases: Vec<Case>, cross_check: bool) -> Vec<(Case, Outcome)> {
+    let threads = std::thread::available_parallelism().map(|n| n.get()).unwrap_or(4).clamp(1, 14);
+    let chunks: Vec<Vec<(usize, Case)>> = {
+        let mut c: Vec<Vec<(usize, Case)>> = (0..threads).map(|_| Vec::new()).collect();
+        for (i, case) in cases.into_iter().enumerate() {
+            c[i % threads].push((i, case));
+        }
+        c
+    };
+    let mut results: Vec<(usize, Case, Outcome)> = std::thread::scope(|s| {
+        let handles: Vec<_> = chunks
+            .into_iter()
+            .map(|chunk| {
+                s.spawn(move || {
+                    let mut ctx = Ctx::new();
+                    let mut seen_src: std::collections::HashSet<String> = Default::default();
+                    chunk
+                        .into_iter()
+                        .map(|(i, case)| {
+                            let mut o = judge(&mut ctx, &case, false);
+                            if cross_check && !o.skipped && seen_src.insert(case.src().to_owned()) {
+                                cross_check_lexer(&mut ctx, case.src(), &mut o);
+                            }
+                            (i, case, o)
+                        })
+                        .collect::<Vec<_>>()
+                })
+            })
+            .collect();
+        handles.into_iter().flat_map(|h| h.join().expect("worker died")).collect()
+    });
+    results.sort_by_key(|r| r.0);
+    results.into_iter().map(|(_, c, o)| (c, o)).collect()
+}
+
+/// around a correspondence break: look for an input inside the proved region on which the oracle fails
+fn search_oracle_failure(ctx: &mut Ctx, case: &Case) -> Option<(Case, String)> {
+    let mut candidates: Vec<Case> = vec![case.clone()];
+    match case {
+        Case::Append { text, loc, src } => {
+            for f in append_files() {
+                for l in [Loc::Start, Loc::End] {
+                    candidates.push(Case::Append { text: text.clone(), loc: l, src: f.to_owned() });
+                }
+            }
+            for c in ALPHABET {
+                candidates.push(Case::Append { text: format!("{}{}", text, c), loc: *loc, src: src.clone() });
+                candidates.push(Case::Append { text: format!("{}{}", c, text), loc: *loc, src: src.clone() });
+                candidates.push(Case::Append { text: format!("{}{}", text, c), loc: *loc, src: "print(1)\n".into() });
+            }
+        }
+        Case::Remove { src, .. } => {
+            candidates.push(Case::Remove { src: src.clone(), rule: Rule::Spaces });
+            candidates.push(Case::Remove { src: src.clone(), rule: Rule::Comments { lits: vec![], regexes: vec![] } });
+            for l in lit_pool().into_iter().filter(|l| !l.1) {
+                candidates.push(Case::Remove { src: src.clone(), rule: Rule::Comments { lits: vec![l], regexes: vec![] } });
+            }
+        }
+    }
+    for c in candidates {
+        let o = judge(ctx, &c, false);
+        if let Some(v) = o.violations.iter().find(|v| v.kind == "oracle") {
+            return Some((c, v.what.clone()));
+        }
+    }
+    None
+}
+
+/// ddmin over the characters of the source (and of the text), keeping "same check still violated"
+fn shrink(ctx: &mut Ctx, case: &Case, check: &str) -> Case {
+    let still = |ctx: &mut Ctx, c: &Case| -> bool {
+        let mut o = judge(ctx, c, false);
+        if check == "lexer_vs_darklua_parser" && !o.skipped {
+            cross_check_lexer(ctx, c.src(), &mut o);
+        }
+        o.violations.iter().any(|v| v.check == check)
+    };
+    let with_src = |c: &Case, s: String| -> Case {
+        match c {
+            Case::Append { text, loc, .. } => Case::Append { text: text.clone(), loc: *loc, src: s },
+            Case::Remove { rule, .. } => Case::Remove { src: s, rule: rule.clone() },
+        }
+    };
+    let mut cur = case.clone();
+    let mut n = 2usize;
+    loop {
+        let chars: Vec<char> = cur.src().chars().collect();
+        if chars.len() < 2 {
+            break;
+        }
+        let chunk = (chars.len() + n - 1) / n;
+        let mut reduced = false;
+        let mut i = 0;
+        while i < chars.len() {
+            let cand: String = chars[..i].iter().chain(chars[(i + chunk).min(chars.len())..].iter()).collect();
+            let c2 = with_src(&cur, cand);
+            if still(ctx, &c2) {
+                cur = c2;
+                reduced = true;
+                break;
+            }
+            i += chunk;
+        }
+        if reduced {
+            n = n.saturating_sub(1).max(2);
+        } else if chunk == 1 {
+            break;
+        } else {
+            n = (n * 2).min(chars.len());
+        }
+    }
+    cur
+}
+
+fn fold(report: &mut Report, ctx: &mut Ctx, results: Vec<(Case, Outcome)>) {
+    for (case, o) in results {
+        for (n, b) in &o.hists {
+            report.hist(n, b);
+        }
+        for (n, c) in &o.counts {
+            report.count(n, *c);
+        }
+        if o.skipped {
+            report.count("skipped_sources", 1);
+            continue;
+        }
+        report.case(o.key.clone());
+        if report.samples.len() < report.max_samples && o.key.is_some() && report.evaluations % 997 == 1 {
+            report.sample(case.to_json());
+        }
+        for v in o.violations {
+            if v.kind == "correspondence" && v.check != "lexer_vs_darklua_parser" {
+                if let Some((c2, what)) = search_oracle_failure(ctx, &case) {
+                    report.violation(Violation {
+                        kind: "oracle".into(),
+                        check: format!("{}_via_search", v.check),
+                        what: format!("found while searching around a correspondence break ({}): {}", v.what, what),
+                        input: c2.to_json(),
+                        failing_input_found: true,
+                    });
+                    continue;
+                }
+            }
+            report.violation(v);
+        }
+    }
+}
+
+fn replay_known_findings(report: &mut Report, ctx: &mut Ctx) {
+    for f in known_findings("C18") {
+        let id = f["id"].as_str().unwrap_or("?").to_owned();
+        let case = match Case::from_json(&f["witness"]) {
+            Some(c) => c,
+            None => {
+                report.notes.push(format!("known finding {} has no replayable witness", id));
+                continue;
+            }
+        };
+        let expect = f["witness"]["expect"].as_str().unwrap_or("O1").to_owned();
+        let o = judge(ctx, &case, true);
+        if o.oracle_fails.iter().any(|x| x == &expect) {
+            report.known_finding(&id, f["expected_wrong"].as_str().unwrap_or(""));
+        } else {
+            report.notes.push(format!("known finding {} no longer reproduces (oracle fails: {:?})", id, o.oracle_fails));
+        }
+    }
+}
+
+fn corpus_cases() -> Vec<Case> {
+    let dir = concat!(env!("CARGO_MANIFEST_DIR"), "/../corpus/C18");
+    let mut out = Vec::new();
+    if let Ok(rd) = std::fs::read_dir(dir) {
+        let mut paths: Vec<_> = rd.filter_map(|e| e.ok()).map(|e| e.path()).collect();
+        paths.sort();
+        for p in paths {
+            if p.extension().map(|e| e == "json").unwrap_or(false) {
+                if let Ok(text) = std::fs::read_to_string(&p) {
+                    if let Ok(v) = serde_json::from_str::<Value>(&text) {
+                        match &v {
+                            Value::Array(a) => out.extend(a.iter().filter_map(Case::from_json)),
+                            _ => out.extend(Case::from_json(&v)),
+                        }
+                    }
+                }
+            }
+        }
+    }
+    out
+}
+
+pub fn run(report: &mut Report, replay: Option<&str>) {
+    let mut ctx = Ctx::new();
+    if let Some(path) = replay {
+        let text = std::fs::read_to_string(path).expect("cannot read the replay file");
+        let v: Value = serde_json::from_str(&text).expect("replay file is not JSON");
+        let input = if v.get("input").is_some() { v["input"].clone() } else { v.clone() };
+        let cases: Vec<Case> = match &input {
+            Value::Array(a) => a.iter().filter_map(Case::from_json).collect(),
+            _ => Case::from_json(&input).into_iter().collect(),
+        };
+        for case in cases {
+            let base = run_real(case.src(), NO_RULES);
+            let out = run_real(case.src(), &case.config());
+            eprintln!("replay {}\n  config   {}\n  baseline {:?}\n  output   {:?}", case.to_json(), case.config(), base, out);
+            let mut o = judge(&mut ctx, &case, false);
+            if !o.skipped {
+                cross_check_lexer(&mut ctx, case.src(), &mut o);
+            }
+            eprintln!("  oracle fails: {:?}", o.oracle_fails);
+            if std::env::var("C18_SHRINK").is_ok() {
+                if let Some(v) = o.violations.first() {
+                    let small = shrink(&mut ctx, &case, &v.check.clone());
+                    eprintln!("  shrunk ({}): {}", v.check, small.to_json());
+                }
+            }
+            fold(report, &mut ctx, vec![(case, o)]);
+        }
+        return;
+    }
+    let thorough = report.is_thorough();
+    let mut rng = Rng::new(report.seed);
+    report.rule = "append: every text over {[ ] = - a LF CR SP} up to length 4 (+ the property's list) x {start,end} x {empty file, print(1)LF}; \
+                   up to length 3 (thorough: 4) on 15 files (ending with a line comment / without newline / comment-only …). \
+                   remove: generated Luau programs (27 statement templates, comment in every gap or random gaps, LF and CRLF) x \
+                   {remove_spaces, remove_comments, except literal sets, except regex sets}. \
+                   Non-trivial = append with a non-empty text, or a remove case whose source has at least one comment; keys are (config, source)."
+        .to_owned();
+
+    // 0. corpus and known findings first
+    let corpus = corpus_cases();
+    report.count("corpus_cases", corpus.len() as u64);
+    let r = run_parallel(corpus, true);
+    fold(report, &mut ctx, r);
+    replay_known_findings(report, &mut ctx);
+
+    // 1. append_text_comment: exhaustive family
+    let mut cases = Vec::new();
+    let full = all_texts(4);
+    let mut texts_all_files: Vec<String> = if thorough { full.clone() } else { all_texts(3) };
+    texts_all_files.extend(special_texts());
+    for t in &full {
+        for loc in [Loc::Start, Loc::End] {
+            for f in ["", "print(1)\n"] {
+                cases.push(Case::Append { text: t.clone(), loc, src: f.to_owned() });
+            }
+        }
+    }
+    for t in &texts_all_files {
+        for loc in [Loc::Start, Loc::End] {
+            for f in append_files() {
+                if (f.is_empty() || f == "print(1)\n") && t.chars().count() <= 4 && t.chars().all(|c| ALPHABET.contains(&c)) {
+                    continue; // already in the exhaustive block
+                }
+                cases.push(Case::Append { text: t.clone(), loc, src: f.to_owned() });
+            }
+        }
+    }
+    // random longer texts over the alphabet and over a wider one, on generated sources
+    let n_random = if thorough { 60000 } else { 600 };
+    for _ in 0..n_random {
+        let len = 5 + rng.below(12);
+        let wide = rng.chance(1, 3);
+        let t: String = (0..len)
+            .map(|_| if wide { *rng.pick(&['[', ']', '=', '-', 'a', '\n', ' ', 'é', '"', '\\', '{']) } else { *rng.pick(&ALPHABET) })
+            .collect();
+        let src = if rng.chance(1, 2) { append_files()[rng.below(append_files().len())].to_owned() } else { gen_source(&mut rng, false, "\n", None) };
+        let loc = if rng.chance(1, 2) { Loc::Start } else { Loc::End };
+        cases.push(Case::Append { text: t, loc, src });
+    }
+    report.exhaustive.insert("append texts up to length 4 over the 8-letter alphabet x {start,end} x {empty, non-empty file}".into(), true);
+    report.count("append_cases", cases.len() as u64);
+    let r = run_parallel(cases, false);
+    fold(report, &mut ctx, r);
+
+    // 2. remove_comments / remove_spaces
+    let mut cases = Vec::new();
+    // every template, a comment in every gap, every basic rule
+    for i in 0..(TEMPLATES.len() + LAST_TEMPLATES.len()) {
+        for nl in ["\n", "\r\n"] {
+            let src = gen_source(&mut rng, true, nl, Some(i));
+            cases.push(Case::Remove { src: src.clone(), rule: Rule::Spaces });
+            cases.push(Case::Remove { src: src.clone(), rule: Rule::Comments { lits: vec![], regexes: vec![] } });
+            cases.push(Case::Remove { src: src.clone(), rule: Rule::Comments { lits: vec![(false, false, "--".into())], regexes: vec![] } });
+            cases.push(Case::Remove { src: src.clone(), rule: Rule::Comments { lits: vec![(true, false, "--[".into())], regexes: vec![] } });
+            cases.push(Case::Remove { src, rule: Rule::Comments { lits: vec![], regexes: vec!["^--[^\\[]".into()] } });
+        }
+    }
+    let n_sources = if thorough { 60000 } else { 900 };
+    for k in 0..n_sources {
+        let crlf = k % 5 == 4;
+        let nl = if crlf { "\r\n" } else { "\n" };
+        let src = gen_source(&mut rng, k % 3 == 0, nl, None);
+        let n_rules = 3;
+        for _ in 0..n_rules {
+            cases.push(Case::Remove { src: src.clone(), rule: gen_rule(&mut rng, crlf) });
+        }
+    }
+    report.count("remove_cases", cases.len() as u64);
+    let r = run_parallel(cases, true);
+    fold(report, &mut ctx, r);
+    debug_assert!(!has_lone_cr("a\r\nb"));
 }
